@@ -13,6 +13,7 @@ import (
 	"strings"
 
 	"github.com/go-python/gpython/py"
+	gprepl "github.com/go-python/gpython/repl"
 	"github.com/go-python/gpython/simrt"
 	"github.com/go-python/gpython/simrt/simfs"
 	"github.com/go-python/gpython/zzverif/harness"
@@ -32,6 +33,7 @@ type Program struct {
 type Scenario struct {
 	Progs      []Program      `json:"progs"`
 	SharedCode bool           `json:"shared_code"`         // all contexts run ONE compiled code object (program 0)
+	Repl       bool           `json:"repl,omitempty"`      // after its program every context feeds three expressions to a REPL of its own; the echoes must reach its own UI
 	RelPaths   bool           `json:"rel_paths,omitempty"` // every context has sys.path ["."] and runs its program from a file in its own directory
 	Policy     string         `json:"policy"`
 	PNum       int            `json:"pnum"`
@@ -262,6 +264,7 @@ func (Engine) Gen(seed uint64, idx int, tier string) interface{} {
 	sc := &Scenario{SSeed: r.Uint64(), Order: simrt.MapOrder{Kind: r.Intn(4), K: r.Uint64()}}
 	sc.SharedCode = r.Chance(1, 5)
 	sc.RelPaths = !sc.SharedCode && r.Chance(1, 4)
+	sc.Repl = r.Chance(1, 4)
 	var locs []string
 	for _, l := range Locs {
 		if excl[l] {
@@ -451,6 +454,13 @@ func dictShape(d py.StringDict, depth int) string {
 	return b.String()
 }
 
+func replBase(sc *Scenario, i int) int {
+	if !sc.Repl {
+		return -1
+	}
+	return 1000 * (i + 1)
+}
+
 func mkSched(sc *Scenario) simrt.Scheduler {
 	r := simrt.NewRand(sc.SSeed)
 	switch sc.Policy {
@@ -465,11 +475,20 @@ func mkSched(sc *Scenario) simrt.Scheduler {
 }
 
 type ctxOut struct {
-	trace []string
-	exc   string
+	trace  []string
+	exc    string
+	echoes []string
 }
 
-func runProgram(src string, code *py.Code, lib string, file string) (o ctxOut) {
+type uiRec struct{ prints *[]string }
+
+func (u uiRec) SetPrompt(string) {}
+func (u uiRec) Print(s string)   { *u.prints = append(*u.prints, s) }
+
+func runProgram(src string, code *py.Code, lib string, file string, replBase int) (o ctxOut) {
+	defer func() {
+		// (runs after the session work below; see the deferred block there)
+	}()
 	s, err := pyhost.NewSession([]string{lib, "/simcwd/common"})
 	if err != nil {
 		o.exc = "SETUP:" + err.Error()
@@ -482,6 +501,15 @@ func runProgram(src string, code *py.Code, lib string, file string) (o ctxOut) {
 		}
 		o.trace = s.Trace
 	}()
+	if replBase >= 0 {
+		defer func() {
+			rp := gprepl.New(s.Ctx)
+			rp.SetUI(uiRec{&o.echoes})
+			for i := 0; i < 3; i++ {
+				rp.Run(fmt.Sprintf("%d + %d", replBase, i))
+			}
+		}()
+	}
 	if file != "" {
 		_, err := py.RunFile(s.Ctx, file, py.CompileOpts{}, nil)
 		o.exc = pyhost.ExcClass(err)
@@ -549,7 +577,7 @@ func (Engine) Exec(sci interface{}, opt harness.ExecOpts) *harness.Outcome {
 		i := i
 		sim := simrt.New(simrt.Config{MaxSteps: 20000000, Order: sc.Order})
 		lib, _, file := place(i)
-		sim.Spawn("solo", func() { solo[i] = runProgram(srcs[i], shared, lib, file) })
+		sim.Spawn("solo", func() { solo[i] = runProgram(srcs[i], shared, lib, file, replBase(sc, i)) })
 		res := sim.Run()
 		out.Steps += res.Steps
 		if len(res.Panics) > 0 || res.Capped {
@@ -570,7 +598,7 @@ func (Engine) Exec(sci interface{}, opt harness.ExecOpts) *harness.Outcome {
 	for i := range srcs {
 		i := i
 		lib, _, file := place(i)
-		sim.Spawn(fmt.Sprintf("ctx%d", i), func() { inter[i] = runProgram(srcs[i], shared, lib, file) })
+		sim.Spawn(fmt.Sprintf("ctx%d", i), func() { inter[i] = runProgram(srcs[i], shared, lib, file, replBase(sc, i)) })
 	}
 	res := sim.Run()
 	after := fingerprint()
@@ -621,6 +649,18 @@ func (Engine) Exec(sci interface{}, opt harness.ExecOpts) *harness.Outcome {
 		if loc, d := checkAgainstModel(inter[i].trace, want); d != "" {
 			out.Violate("context-observes-another-context", "model|"+loc, "context %d beside %d other context(s): %s (program ended with %q)", i, len(srcs)-1, d, inter[i].exc)
 			continue
+		}
+		if sc.Repl {
+			want := []string{fmt.Sprint(1000*(i+1) + 0), fmt.Sprint(1000*(i+1) + 1), fmt.Sprint(1000*(i+1) + 2)}
+			for _, which := range []struct {
+				name string
+				got  []string
+			}{{"alone", solo[i].echoes}, {"beside other contexts", inter[i].echoes}} {
+				if strings.Join(which.got, ",") != strings.Join(want, ",") {
+					out.Violate("context-observes-another-context", "model|repl.echo", "context %d (%s): its REPL's UI received the echoes %q, its own expressions have the values %q", i, which.name, which.got, want)
+					break
+				}
+			}
 		}
 		if d := pyhost.DiffTrace(inter[i].trace, solo[i].trace); d != "" || inter[i].exc != solo[i].exc {
 			loc := locOf(d)
